@@ -5,6 +5,7 @@ import (
 	"fmt"
 	"go/ast"
 	"go/types"
+	"sort"
 	"strings"
 )
 
@@ -761,6 +762,105 @@ func checkHeredocBuryingAgrees(p *Prog, r *Result, rule string) int {
 			}
 			return true
 		})
+	}
+	return n
+}
+
+// R01l: a slice offset is printed right after the colon of `${a:…}`, and `:-`, `:+`, `:=` and `:?` are other
+// expansions. The printer writes a space first when the offset begins with a sign; "begins with a sign" is every unary
+// operator whose text starts with + or - — the increments as well as plus and minus. The operators' texts are the
+// trailing comments of the constants' declarations (which go generate turns into String()), and each such constant must
+// be listed in the switch that decides on the space.
+func checkSliceSignsSpaced(p *Prog, r *Result, rule string) int {
+	pkg := p.Pkg("syntax")
+	info := pkg.TypesInfo
+	unT := lookupType(pkg, "UnAritOperator")
+	fd := p.FuncDecl("syntax", "Printer.arithmExprRecurse")
+	if unT == nil || fd == nil {
+		r.Undecided(rule, "syntax#UnAritOperator / Printer.arithmExprRecurse", token.NoPos, "anchors not found")
+		return 0
+	}
+	// constants whose text begins with + or -
+	signs := map[string]token.Pos{}
+	for _, f := range pkg.Syntax {
+		for _, d := range f.Decls {
+			gd, ok := d.(*ast.GenDecl)
+			if !ok || gd.Tok != token.CONST {
+				continue
+			}
+			for _, sp := range gd.Specs {
+				vs := sp.(*ast.ValueSpec)
+				if vs.Comment == nil || len(vs.Names) != 1 {
+					continue
+				}
+				c, ok := info.Defs[vs.Names[0]].(*types.Const)
+				if !ok || namedOf(c.Type()) != unT {
+					continue
+				}
+				text := strings.TrimSpace(vs.Comment.Text())
+				if strings.HasPrefix(text, "+") || strings.HasPrefix(text, "-") {
+					signs[c.Name()] = vs.Pos()
+				}
+			}
+		}
+	}
+	if len(signs) < 2 {
+		r.Undecided(rule, "syntax#UnAritOperator constants", token.NoPos, "the operator texts were not found in the constants' trailing comments")
+		return 0
+	}
+	// the switch under `if spacePlusMinus`
+	listed := map[string]bool{}
+	found := false
+	ast.Inspect(fd.Body, func(m ast.Node) bool {
+		is, ok := m.(*ast.IfStmt)
+		if !ok {
+			return true
+		}
+		if id, ok := ast.Unparen(is.Cond).(*ast.Ident); !ok || !strings.Contains(strings.ToLower(id.Name), "plusminus") {
+			return true
+		}
+		ast.Inspect(is.Body, func(q ast.Node) bool {
+			cc, ok := q.(*ast.CaseClause)
+			if !ok {
+				return true
+			}
+			writesSpace := false
+			for _, st := range cc.Body {
+				ast.Inspect(st, func(k ast.Node) bool {
+					if c, ok := k.(*ast.CallExpr); ok {
+						if callee := calleeOf(info, c); callee != nil && callee.Name() == "space" {
+							writesSpace = true
+						}
+					}
+					return true
+				})
+			}
+			if writesSpace {
+				found = true
+				for _, e := range cc.List {
+					if id, ok := ast.Unparen(e).(*ast.Ident); ok {
+						listed[id.Name] = true
+					}
+				}
+			}
+			return true
+		})
+		return true
+	})
+	if !found {
+		r.Undecided(rule, funcKey("syntax", fd)+"#space before a leading sign", fd.Pos(), "the switch that writes a space before a leading sign was not found")
+		return 0
+	}
+	n := 0
+	var names []string
+	for nm := range signs {
+		names = append(names, nm)
+	}
+	sort.Strings(names)
+	for _, nm := range names {
+		n++
+		r.Check(listed[nm], rule, fmt.Sprintf("%s#a leading %s is kept apart from the colon", funcKey("syntax", fd), nm), signs[nm], "listed in the switch that writes the space",
+			fmt.Sprintf("the unary operator %s begins with a sign and is not among the operators before which a slice offset gets a space: `${a: %sb}` is printed without it and becomes another expansion (`${a:--b}` is a default value)", nm, map[string]string{"Inc": "++", "Dec": "--", "Plus": "+", "Minus": "-"}[nm]))
 	}
 	return n
 }
